@@ -44,8 +44,21 @@ def hGtRestrict (j : Json) : R Json := do
   let req ← optF (listOf str) j "req_samples"
   let ids ← optF (listOf str) j "ids"
   let mx ← optF nat j "max"
-  pure <| jObj [("rows", jArr ((keptSamples samples req).map jNat)),
-                ("cols", jArr ((keptVariants vars region ids mx).map jNat))]
+  let rows := keptSamples samples req
+  let cols := keptVariants vars region ids mx
+  -- with "data" (sample-major cells of the whole file): the matrix the PGEN reader fills for this restriction – the file is
+  -- the matrix written variant by variant, read back for the kept sample rows and variant rows in chunks of the size the code
+  -- computes from "chunk" (PgenMatrix.readSel)
+  match ← optF (listOf (listOf gcell)) j "data" with
+  | none => pure <| jObj [("rows", jArr (rows.map jNat)), ("cols", jArr (cols.map jNat))]
+  | some data =>
+    let file := PgenMatrix.write 1 (by decide) data vars.length
+    let k := Chunks.chunkSize (← optF nat j "chunk") cols.length
+    if hk : 0 < k then
+      let out := PgenMatrix.readSel k hk file rows cols
+      pure <| jObj [("rows", jArr (rows.map jNat)), ("cols", jArr (cols.map jNat)),
+                    ("data", jArr (out.map (fun r => jArr (r.map jGCell))))]
+    else throw "chunk size 0"
 
 def jContents (c : Subset.Contents) : Json :=
   jObj [("samples", jArr (c.samples.map jStr)), ("variants", jArr (c.variants.map jStr)),
